@@ -361,12 +361,21 @@ class Recompile(Contract):
                     for k in pre_s]
             goal = z3.And(*[to_val(post[k]) == to_val(pre_s[k]) for k in pre_s]) if all(k in post for k in pre_s) else z3.BoolVal(False)
             out.append(("exception=>evaluator-unchanged(atomic)", z3.And(goal, z3.BoolVal(set(post) <= set(pre_s)))))
+            # C17: 'unchanged' must also hold for a concurrent reader, so a failing recompile never WRITES the instance at all
+            # (a claim-then-roll-back leaves a window in which another thread sees the new checksum with the old function)
+            own = [e for e in stores if e[1] == a.self.oid]
+            out.append(("no-transient-state(a failing recompile never writes the instance)", z3.BoolVal(not own and not dynamic)))
         else:
             # C17: the compiled function is published by ONE store, after everything that can fail
             runs = [i for i, e in enumerate(p.effects) if e[0] == "store-attr" and e[1] == a.self.oid and e[2] == "run_experiment"]
             out.append(("single-publication(at most one store of run_experiment)", z3.BoolVal(len(runs) <= 1)))
             execs = [i for i, e in enumerate(p.effects) if e[0] == "call" and e[1] in ("exec", "PythonCodeGen.generate")]
             out.append(("publication-after-compilation", z3.BoolVal(not runs or not execs or max(execs) < runs[0])))
+            # ... and the checksum -- the flag other threads test to skip their own recompile -- is stored once, last
+            cks = [i for i, e in enumerate(p.effects) if e[0] == "store-attr" and e[1] == a.self.oid and e[2] == CK]
+            fallible = [i for i, e in enumerate(p.effects) if e[0] in ("call", "call-opaque", "engine-object")]
+            out.append(("checksum-published-last(one store, after the function and after everything that can fail)",
+                        z3.BoolVal(len(cks) <= 1 and (not cks or ((not runs or runs[-1] < cks[0]) and (not fallible or max(fallible) < cks[0]))))))
         return out
 
     def verify(self, mutate=None, tag=""):
@@ -385,7 +394,7 @@ class Recompile(Contract):
         return []
 
     def clause_props(self, name, kind):
-        if "single-publication" in name or "publication-after" in name:
+        if "single-publication" in name or "publication-after" in name or "published-last" in name or "no-transient-state" in name:
             return ("C17",)
         if "accepted-text-parses" in name:
             return ("C06", "C11")
